@@ -14,7 +14,7 @@ ID = "C10"
 TITLE = "Results always reflect the most recent simulation, never stale state"
 LEVEL = "exploration"
 ENGINE = "hypothesis-stateful"
-BUDGET = {"quick": 640, "thorough": 200000}
+BUDGET = {"quick": 960, "thorough": 200000}
 SHRINK = {"quick": True, "thorough": True}
 RULE = (
     "Hypothesis RuleBasedStateMachine per run: an initial configuration (ideal or single-phase reservoir, table, "
